@@ -775,6 +775,23 @@ func checkSharedEntriesRefCounted(c *core.Ctx) {
 									}
 								}
 							}
+							// … or a local bound earlier to `count - 1`
+							if id, ok := ast.Unparen(be.X).(*ast.Ident); ok {
+								ast.Inspect(fd.Body, func(z ast.Node) bool {
+									if as, ok := z.(*ast.AssignStmt); ok && as.Tok == token.DEFINE && len(as.Lhs) == len(as.Rhs) {
+										for i, l := range as.Lhs {
+											if li, ok := l.(*ast.Ident); ok && info.Defs[li] != nil && info.Defs[li] == info.Uses[id] {
+												if sub, ok := ast.Unparen(as.Rhs[i]).(*ast.BinaryExpr); ok && sub.Op == token.SUB {
+													if k, isK := core.ConstVal(info, sub.Y); isK && k == 1 {
+														after = true
+													}
+												}
+											}
+										}
+									}
+									return true
+								})
+							}
 							for _, lp := range core.EnclosingLists(fd.Body, is) {
 								if lp.Index > 0 {
 									if ids, ok := lp.List[lp.Index-1].(*ast.IncDecStmt); ok && ids.Tok == token.DEC {
